@@ -632,6 +632,28 @@ func (c *Ctx) loopExitsOnZero(fn *ssa.Function, h *ssa.BasicBlock, li *lexerInfo
 							return true, ""
 						}
 					}
+					// the predicate is handed in as a function (one reader for several digit classes): every function
+					// passed at the call sites answers the same at byte 0
+					if p, isParam := x.Common().Value.(*ssa.Parameter); isParam && len(x.Common().Args) == 1 && isByteSource(x.Common().Args[0]) {
+						if sites, ok := c.argsAtCallSites(p); ok && len(sites) > 0 {
+							all := true
+							for _, st := range sites {
+								pf, isFn := st.v.(*ssa.Function)
+								if !isFn || pf.Object() == nil {
+									all = false
+									break
+								}
+								tf, _ := pf.Object().(*types.Func)
+								if v, ok := c.evalBytePred(tf, 0, 0); tf == nil || !ok || v != (cc.Edge == 0) {
+									all = false
+									break
+								}
+							}
+							if all {
+								return true, ""
+							}
+						}
+					}
 				case *ssa.BinOp:
 					var bv ssa.Value
 					var k int64
